@@ -57,15 +57,20 @@ StripOn(sh, n, horiz, mid) == \* weights 1 and 2 at the two ends (and 4 in the m
     IN [k \in ks |-> K(Whole(IF k = at(1) THEN 1 ELSE IF k = at(n) THEN 2 ELSE 4))]
 Strip(n, horiz, mid) == StripOn("S1", n, horiz, mid)
 
+DenseOn(perm) == [k \in {<<perm[i], c, r>> : i \in 1..3, c \in 1..3, r \in 1..3} |->
+                    [c |-> "const", v |-> Whole(Weight(CHOOSE i \in 1..3 : perm[i] = k[1], k[2], k[3]))]]
 ChainCells(perm) == \* perm: sequence of the three sheet names
     LET a == perm[1]  b == perm[2]  c == perm[3]
+        dense == DenseOn(perm)
         extra == ( <<a, 5, 1>> :> F(Bin("+", Ref(b, 5, 1, FALSE, FALSE), RelRef(1, 1)))
                 @@ <<b, 5, 1>> :> F(Bin("+", Bin("+", RelRef(1, 1), Ref(c, 5, 1, FALSE, FALSE)), Ref(a, 2, 1, FALSE, FALSE)))
                 @@ <<c, 5, 1>> :> F(Bin("+", RelRef(1, 1), Ref(a, 5, 2, FALSE, FALSE)))
                 @@ <<a, 5, 2>> :> F(Bin("+", Bin("+", RelRef(2, 2), Ref(b, 3, 3, FALSE, FALSE)), CallN("SUM", <<Rng("", 1, 1, 2, 2)>>)))
                 @@ <<b, 5, 3>> :> F(Bin("+", CallN("SUM", <<Rng(a, 5, 1, 5, 2), RelRef(3, 3)>>), Ref(b, 1, 1, TRUE, TRUE))) )
-    IN [k \in DOMAIN DenseCells \cup DOMAIN extra |-> IF k \in DOMAIN extra THEN extra[k] ELSE DenseCells[k]]
-Perms == {<<"S1", "S 2", "O'x">>, <<"S 2", "S1", "O'x">>, <<"O'x", "S 2", "S1">>, <<"S1", "O'x", "S 2">>}
+    IN [k \in DOMAIN dense \cup DOMAIN extra |-> IF k \in DOMAIN extra THEN extra[k] ELSE dense[k]]
+\* (S1 / S1b, S 2 / S 2b: one sheet name is a prefix of another - a reference must be matched on the whole name)
+Perms == {<<"S1", "S 2", "O'x">>, <<"S 2", "S1", "O'x">>, <<"O'x", "S 2", "S1">>, <<"S1", "O'x", "S 2">>,
+          <<"S1", "S1b", "O'x">>, <<"S1b", "S1", "S 2">>, <<"S 2", "S 2b", "S1">>, <<"S 2b", "O'x", "S 2">>, <<"S1", "S 2b", "S1b">>}
 
 WideCols == <<27, 52, 702, 703, 16384>>      \* AA AZ ZZ AAA XFD
 
